@@ -366,6 +366,91 @@ pub fn accessor_disagreement(s: &Sol) -> Option<String> {
     None
 }
 
+/// Continuous models that force the two-phase start of the tableau simplex and leave, after phase 1, an artificial that
+/// is still basic at level 0 in a row whose structural entries are all NEGATIVE (rows `a·x >= 0` / `a·x = 0` with
+/// `a <= 0`, right-hand side 0, also duplicated / scaled), with an objective that pushes the variables up and rows that
+/// bound them: dropping such a row as "redundant" solves a relaxation (too-good optimum, or Unbounded).
+/// `k` selects the hand-written members first (k < 6), then random ones.
+pub fn two_phase_zero_rows(r: &mut Rng, k: usize) -> LinearModel {
+    let nn = || VariableType::NonNegativeReal(0.0, f64::INFINITY);
+    let mut m = LinearModel::new();
+    let fixed: Option<(usize, Vec<(Vec<f64>, Comparison, f64)>, Vec<f64>)> = match k {
+        0 => Some((2, vec![(vec![-1.0, -1.0], Comparison::GreaterOrEqual, 0.0), (vec![1.0, 1.0], Comparison::LessOrEqual, 4.0)], vec![1.0, 1.0])),
+        1 => Some((2, vec![(vec![-2.0, -1.0], Comparison::Equal, 0.0), (vec![1.0, 1.0], Comparison::LessOrEqual, 4.0)], vec![1.0, 2.0])),
+        2 => Some((2, vec![(vec![1.0, 1.0], Comparison::LessOrEqual, 4.0), (vec![-1.0, -1.0], Comparison::GreaterOrEqual, 0.0)], vec![3.0, 1.0])),
+        3 => Some((3, vec![(vec![1.0, 0.0, 2.0], Comparison::Equal, 1.0), (vec![1.0, 1.0, 1.0], Comparison::LessOrEqual, 1.0), (vec![1.0, -1.0, 0.0], Comparison::GreaterOrEqual, 1.0)], vec![1.0, 1.0, 1.0])),
+        4 => Some((2, vec![(vec![-1.0, -2.0], Comparison::Equal, 0.0), (vec![-2.0, -4.0], Comparison::Equal, 0.0), (vec![1.0, 1.0], Comparison::LessOrEqual, 5.0)], vec![1.0, 1.0])),
+        5 => Some((3, vec![(vec![-1.0, 0.0, -3.0], Comparison::GreaterOrEqual, 0.0), (vec![0.0, -1.0, 0.0], Comparison::Equal, 0.0), (vec![1.0, 1.0, 1.0], Comparison::LessOrEqual, 6.0)], vec![2.0, 1.0, 1.0])),
+        _ => None,
+    };
+    if let Some((n, rows, obj)) = fixed {
+        for i in 0..n { m.add_variable(&format!("x{}", i), nn()); }
+        for (c, rel, b) in rows { m.add_constraint(c, rel, b); }
+        m.set_objective(obj, OptimizationType::Max);
+        return m;
+    }
+    let n = 2 + r.below(2);
+    for i in 0..n { m.add_variable(&format!("x{}", i), nn()); }
+    let mut rows: Vec<(Vec<f64>, Comparison, f64)> = vec![];
+    for _ in 0..1 + r.below(2) {
+        // non-positive coefficients, not all zero, right-hand side 0
+        let mut c: Vec<f64> = (0..n).map(|_| -(r.below(4) as f64)).collect();
+        if c.iter().all(|v| *v == 0.0) { let j = r.below(n); c[j] = -1.0; }
+        let rel = if r.chance(1, 2) { Comparison::GreaterOrEqual } else { Comparison::Equal };
+        rows.push((c.clone(), rel, 0.0));
+        if r.chance(1, 3) { let f = 2.0 + r.below(2) as f64; rows.push((c.iter().map(|v| v * f).collect(), rel, 0.0)); }
+    }
+    // bounding rows
+    rows.push(((0..n).map(|_| 1.0 + r.below(2) as f64).collect(), Comparison::LessOrEqual, 3.0 + r.below(4) as f64));
+    if r.chance(1, 3) { rows.push(((0..n).map(|_| r.below(3) as f64).collect(), Comparison::GreaterOrEqual, 0.0)); }
+    // random order of the rows (the position of the zero rows changes the pivot path)
+    for i in (1..rows.len()).rev() { let j = r.below(i + 1); rows.swap(i, j); }
+    for (c, rel, b) in rows { m.add_constraint(c, rel, b); }
+    let obj: Vec<f64> = (0..n).map(|_| 1.0 + r.below(3) as f64).collect();
+    if r.chance(4, 5) { m.set_objective(obj, OptimizationType::Max); } else { m.set_objective(obj.iter().map(|c| -c).collect(), OptimizationType::Min); }
+    m
+}
+
+/// The textbook cycling / degenerate instances as `LinearModel`s (`min c·x`, rows `a·x <= b`, `x >= 0`): Dantzig's rule
+/// with the usual tie-breaks cycles on them forever unless an anti-cycling rule (the stall counter + Bland fallback of
+/// `Tableau::solve_avoiding`) takes over.  Each also as the mirrored `max −c·x`, and with `extra` non-binding rows.
+pub fn cycling_classics(r: &mut Rng) -> Vec<(&'static str, LinearModel)> {
+    let data: Vec<(&'static str, Vec<f64>, Vec<(Vec<f64>, f64)>)> = vec![
+        ("classic-chvatal-cycle", vec![-10.0, 57.0, 9.0, 24.0],
+            vec![(vec![0.5, -5.5, -2.5, 9.0], 0.0), (vec![0.5, -1.5, -0.5, 1.0], 0.0), (vec![1.0, 0.0, 0.0, 0.0], 1.0)]),
+        ("classic-beale-cycle", vec![-0.75, 150.0, -0.02, 6.0],
+            vec![(vec![0.25, -60.0, -0.04, 9.0], 0.0), (vec![0.5, -90.0, -0.02, 3.0], 0.0), (vec![0.0, 0.0, 1.0, 0.0], 1.0)]),
+        ("classic-marshall-suurballe", vec![-2.3, -2.15, 13.55, 0.4],
+            vec![(vec![0.4, 0.2, -1.4, -0.2], 0.0), (vec![-7.8, -1.4, 7.8, 0.4], 0.0)]),
+        ("classic-kuhn-cycle", vec![-2.0, -3.0, 1.0, 12.0],
+            vec![(vec![-2.0, -9.0, 1.0, 9.0], 0.0), (vec![1.0 / 3.0, 1.0, -1.0 / 3.0, -2.0], 0.0)]),
+        ("classic-klee-minty-3", vec![-100.0, -10.0, -1.0],
+            vec![(vec![1.0, 0.0, 0.0], 1.0), (vec![20.0, 1.0, 0.0], 100.0), (vec![200.0, 20.0, 1.0], 10000.0)]),
+        ("classic-degenerate-2d", vec![-1.0, -1.0],
+            vec![(vec![1.0, 0.0], 1.0), (vec![0.0, 1.0], 1.0), (vec![1.0, 1.0], 2.0), (vec![1.0, 2.0], 3.0)]),
+    ];
+    let mut out = vec![];
+    for (name, obj, rows) in data {
+        for variant in 0..3 {
+            let n = obj.len();
+            let mut m = LinearModel::new();
+            for i in 0..n { m.add_variable(&format!("x{}", i + 1), VariableType::NonNegativeReal(0.0, f64::INFINITY)); }
+            for (c, b) in &rows { m.add_constraint(c.clone(), Comparison::LessOrEqual, *b); }
+            if variant == 2 {
+                // extra rows that never bind (the cycle survives, sizes change)
+                for _ in 0..1 + r.below(2) {
+                    let c: Vec<f64> = (0..n).map(|_| r.below(3) as f64).collect();
+                    m.add_constraint(c, Comparison::LessOrEqual, 1000.0 + r.below(5) as f64);
+                }
+            }
+            if variant == 1 { m.set_objective(obj.iter().map(|c| -c).collect(), OptimizationType::Max); }
+            else { m.set_objective(obj.clone(), OptimizationType::Min); }
+            out.push((name, m));
+        }
+    }
+    out
+}
+
 pub fn is_continuous(m: &LinearModel) -> bool {
     m.domain().values().all(|d| matches!(d.get_type(), VariableType::Real(_, _) | VariableType::NonNegativeReal(_, _)))
 }
